@@ -30,7 +30,8 @@ def translate(ctx):
     if text is not None:
         info['changed'] = C.write_if_changed(path, text)
     else:
-        info['note'] = 'source shape not recognised; the previous Generated/EnvSkeletons.v is kept and only the fault-injection run ties the result to the code'
+        info['restored_committed_file'] = C.restore_generated('coq/Generated/EnvSkeletons.v')
+        info['note'] = 'source shape not recognised; the committed Generated/EnvSkeletons.v is kept and only the fault-injection run ties the result to the code'
     _meta.update(info.get('functions', {}))
     return {'EnvSkeletons': info}
 
